@@ -516,4 +516,29 @@ theorem decode_spec (old : Layer) (data foreign : Bytes) (h4 : 4 ≤ data.length
               rw [hpl, hct]
               rfl
 
+/-! ### definitions used in the statements of C05 -/
+
+/-- A history of DecodeFromBytes calls on ONE layer object: each input is decoded into whatever
+    the previous call left behind.  After a successful call that is the decoded layer; after a
+    failed call the object is partially assigned — `afterErr` (ARBITRARY) says how. -/
+def decodeSeq (afterErr : Layer → Bytes → Layer) : Layer → List (Bytes × Bytes) → List (Res (Layer × Bool))
+  | _, [] => []
+  | cur, (data, foreign) :: rest =>
+    let r := decodeGre cur data foreign
+    let next := match r with
+      | .ok (l, _) => l
+      | _ => afterErr cur data
+    r :: decodeSeq afterErr next rest
+
+/-- the full case analysis of DecodeFromBytes in terms of the specification. -/
+theorem decode_cases (old : Layer) (data foreign : Bytes) :
+    decodeGre old data foreign =
+      if data.length < 4 then .err "GRE packet too small"
+      else match specDecode data with
+        | some l => .ok (l, false)
+        | none => errTruncated := by
+  by_cases h : data.length < 4
+  · rw [if_pos h]; unfold decodeGre; rw [if_pos h]
+  · rw [if_neg h]; exact decode_spec old data foreign (by omega)
+
 end Gp.Gre
